@@ -99,6 +99,21 @@ PartitionedRun(recs, from, to, borders, R) ==
 \* streamed range over one advertised partition [from, to) (borders advertised AFTER alignment)
 StreamRun(recs, from, to, R) == WorkerRun(Slice(recs, from, to), R, 0, FALSE, 0, {}).out
 
+\* ---- a streamed scan sends its result in batches of B key-values as it goes (receiver.go:119-137). An iterator
+\* error after f records (a timeout, a region error): the worker either starts over (Restart: what it always did until
+\* the repair of D25) or, when a batch has already left the receiver, fails the scan -- the stream then ends with an error.
+RECURSIVE ScanPrefix(_, _, _, _)
+ScanPrefix(st, recs, R, n) == IF n = 0 \/ recs = << >> THEN st
+                              ELSE ScanPrefix(ScanStep(st, Head(recs), R, FALSE, 0, {}), Tail(recs), R, n - 1)
+StreamWithFault(recs, R, B, f, Restart) ==
+    LET emitted == ScanPrefix(ScanInit, recs, R, f).out               \* what had been appended when the error came
+        sent    == SubSeq(emitted, 1, (Len(emitted) \div B) * B)      \* ... of which full batches were on the stream
+        full    == WorkerRun(recs, R, 0, FALSE, 0, {}).out IN
+    IF sent = << >> THEN [out |-> full, err |-> FALSE]                \* nothing had left: starting over is invisible
+    ELSE IF Restart THEN [out |-> sent \o full, err |-> FALSE]
+    ELSE [out |-> sent, err |-> TRUE]
+NoDup(s) == \A i, j \in 1..Len(s) : i # j => s[i].k # s[j].k
+
 -----------------------------------------------------------------------------
 \* effect of deletions.  fate[i] \in {"ok", "err", "cas"}: outcome of the i-th issued deletion;
 \* a failed unconditional delete, and a non-CAS error of the conditional index delete, make the
